@@ -341,6 +341,11 @@ impl Exec {
             let sig = format!("{}.{}", match self.cfg.mon { Mon::C05 => "c05.dp", Mon::C14 => "c14", _ => "c04" }, p.sig());
             self.violation(&sig, format!("panic in {whence}: {}:{} {}", p.file, p.line, p.msg));
         }
+        if self.cfg.mon == Mon::C07 {
+            // a master that stopped working brings nobody back into data exchange
+            let sig = format!("c07.master_died.{}", p.sig());
+            self.violation(&sig, format!("panic in {whence}: {}:{} {}", p.file, p.line, p.msg));
+        }
         self.dead = true;
     }
 
@@ -469,6 +474,9 @@ impl Exec {
                             if sdn > 6 {
                                 if matches!(self.cfg.mon, Mon::C14 | Mon::C05) {
                                     self.violation("c14.turn_does_not_end", "more than 6 unacknowledged telegrams in a row".into());
+                                }
+                                if self.cfg.mon == Mon::C07 {
+                                    self.violation("c07.master_only_broadcasts", "more than 6 unacknowledged telegrams in a row: no peripheral is addressed any more".into());
                                 }
                                 self.dead = true;
                                 return;
